@@ -7,6 +7,12 @@ props = [json.loads(l) for l in open('/verif/properties.jsonl')]
 plist = '\n'.join(f"  {p['id']}: {p['title']} — {p['statement']}" for p in props)
 AREAS = {
  '5': {},
+ '9': {'apiA': ('any file of the package', 'behaviour that only shows with less common but legal API use: a non-empty eid_prefix, fragment roots (hier_element, block_element, table, ...), the same parser object used for several calls, parse() + to_dict() + tree_to_xml() called separately, unparse of a sub-element, the debate and judgment roots'),
+       'wsA': ('any file of the package', 'the handling of white space and Unicode: tabs, no-break and other Unicode spaces, CR/CRLF, combining characters, astral characters, case mapping (lower()/upper() on non-ASCII), characters that XML or regexes treat specially'),
+       'orderA': ('any file of the package', 'ordering and positions: the order of children, of attributes, of footnotes, of attachments; first/last element special cases; off-by-one at the start or end of a list, line or document'),
+       'xslE': ('bluebell/akn_text.xsl', 'tables, lists (blockList, ul), quotes (embeddedStructure), blockContainer, speech elements (scene, narrative, summary, from) and the indentation they give their children'),
+       'typesF': ('bluebell/types.py', 'inline classes: Ref, Image, Remark, Sup/Sub, StandardInline and their attributes; InlineText.many_to_dict; unescape'),
+       'pegD': ('bluebell/akn.peg together with the matching hand edit in the generated bluebell/akn.py', 'the structure rules: preface / preamble / body / conclusions / attachments, judgment and debate structures, hier_block_indent, nested block elements, footnote blocks, tables')},
  '8': {k: ('any file of the package (bluebell/*.py, bluebell/akn.peg with bluebell/akn.py, bluebell/akn_text.xsl)', 'whatever code the property %s depends on; the change must break property %s specifically (others may break too)' % (k, k)) for k in ['C08', 'C09', 'C10', 'C11', 'C12', 'C16', 'C17', 'C18']},
  '7': {'typesD': ('bluebell/types.py', 'hierarchical elements and their parts: HierElement, headings, nums, subheadings, crossheadings, longtitle, the wrapping of children into intro / content / wrapUp'),
        'typesE': ('bluebell/types.py', 'judgment and debate structures, speech containers / groups / speeches (from, by), and the document root classes'),
